@@ -608,6 +608,8 @@ def builtin_corpus(rng):
     ad += [(frozenset(range(6)), frozenset(range(7))), (set('abcdefg'), set('abcdefh')), ({i: i for i in range(6)}, {i: i for i in range(7)}),
            (dict.fromkeys('abcdef', 0), dict.fromkeys('abcdeg', 0)), (tuple(range(9)), tuple(range(8)) + (9,)), (list(range(30)), list(range(29)) + [0]),
            (T.frozenmultiset(range(6)), T.frozenmultiset(range(7))), (T.frozendict({i: i for i in range(6)}), T.frozendict({i: i for i in range(5)})),
+           (T.frozenmultiset(['a'] * 10000), T.frozenmultiset(['a'] * 1000)), (T.frozenmultiset(['a'] * 12345), T.frozenmultiset(['a'] * 1234)),
+           (io.BufferedReader(io.BytesIO(b'abc')), io.BytesIO(b'abc')),
            ('x' * 70, 'x' * 69 + 'y'), (bytes(range(80)), bytes(range(79)) + b'\0'), (10**40, 10**40 + 1), (ImmVar(*range(7)), ImmVar(*range(6), 7)),
            (numpy.arange(40), numpy.arange(40) + (numpy.arange(40) == 39))]
     A = numpy.arange(6)
@@ -773,6 +775,15 @@ def run(c):
     def add(name, lines):
         slots[name] = (len(req), len(lines)); req.extend(lines)
 
+    # ------------------------------------------------------------ intern histories first (small heap: gc.collect() is cheap)
+    intern_runs = []
+    for cls_kind in ['dc', 'sing', 'arraydata', 'evaluable'] * (2 if quick else 20):
+        try:
+            intern_runs.append(run_intern_history(rng, cls_kind, 40 if quick else 120))
+        except Exception as e:
+            c.failing_input('interned-construction-raises:' + cls_kind, 'constructing / dropping interned values raises %s' % type(e).__name__, dict(cls=cls_kind, error=repr(e)[:500]))
+    c.log('intern histories run: %d' % len(intern_runs))
+
     # ------------------------------------------------------------ corpus
     NV = 500 if quick else 12000
     values = []
@@ -867,13 +878,7 @@ def run(c):
     canon_cases = gen_canon_cases(rng, 80 if quick else 2000)
     add('canon', ['canon|%s|%d|%s' % (sg, w, ' '.join(it.hex() for it in items)) for sg, w, items, _ in canon_cases])
 
-    # ------------------------------------------------------------ stream: intern histories (events decided here, model asked for the identities)
-    intern_runs = []
-    for cls_kind in ['dc', 'sing', 'arraydata', 'evaluable'] * (2 if quick else 25):
-        try:
-            intern_runs.append(run_intern_history(rng, cls_kind, 40 if quick else 120))
-        except Exception as e:
-            c.failing_input('interned-construction-raises:' + cls_kind, 'constructing / dropping interned values raises %s' % type(e).__name__, dict(cls=cls_kind, error=repr(e)[:500]))
+    # ------------------------------------------------------------ stream: intern histories (run above; the model is asked for the identities)
     add('intern', ['intern|' + ' '.join(r['events']) for r in intern_runs])
 
     # ------------------------------------------------------------ stream: cache.function keys
@@ -1305,7 +1310,7 @@ def run_intern_history(rng, kind, nev):
     elif kind == 'sing':
         make = lambda k: SingA(a=('intern-test', k))
     elif kind == 'arraydata':
-        make = lambda k: T.arraydata(numpy.arange(100, 101 + k, dtype=rng.choice(['<i4', '<i8', '|i1'])))
+        make = lambda k: T.arraydata(numpy.arange(k + 1, dtype=rng.choice(['<i4', '<i8', '<u4'])) + 123456)
     else:
         base = evaluable.Argument('intern-test', (evaluable.constant(2),), float)
         make = lambda k: evaluable.add(evaluable.multiply(base, evaluable.constant(float(k))), base) if k % 2 else evaluable.Sinc(base, k)
